@@ -103,7 +103,7 @@ def ippo_align(payload):
     import agilerl.algorithms.ippo as ippo_mod
     from agilerl.algorithms.ippo import IPPO
     cases = 0
-    for (T, A, E) in ((2, 1, 1), (2, 1, 2), (3, 1, 2), (2, 2, 1), (2, 2, 2), (3, 2, 2), (2, 3, 1)):
+    for (T, A, E) in ((2, 1, 1), (2, 1, 2), (3, 1, 2), (2, 2, 1), (2, 2, 2), (3, 2, 2), (2, 3, 1), (1, 1, 1), (1, 2, 1), (1, 1, 2), (1, 2, 2), (1, 3, 2), (3, 3, 3)):
         agents = [f"agent_{a}" for a in range(A)]
         code = lambda a, t, e: (100 * a + 10 * t + e + 1) / 1000.0
         obs_space, act_space = spaces.Box(-1, 1, (2,)), spaces.Box(-1, 1, (1,))
@@ -114,7 +114,8 @@ def ippo_align(payload):
         rewards = {ag: np.zeros((T, E), dtype=np.float32) for ag in agents}
         dones = {ag: np.ones((T, E), dtype=np.float32) for ag in agents}       # every step terminal => A_t = r_t - V_t = -V_t
         next_state = {ag: np.zeros((E, 2), dtype=np.float32) for ag in agents}
-        next_done = {ag: np.ones((E,), dtype=np.float32) for ag in agents}
+        nd = lambda a, e: 1.0 if (a * E + e) % 3 == 1 else 0.0                   # differs between (agent, env) pairs
+        next_done = {ag: np.array([nd(a, e) for e in range(E)], dtype=np.float32) for a, ag in enumerate(agents)}
         fake = SimpleNamespace(gamma=0.9, gae_lambda=0.9, device="cpu", normalize_images=False, update_epochs=1, batch_size=10 ** 6,
                                to_device=lambda *xs: xs)
         got = {}
@@ -127,7 +128,7 @@ def ippo_align(payload):
         try:
             try:
                 IPPO._learn_individual(fake, (states, actions, log_probs, rewards, dones, values, next_state, next_done), actor=None,
-                                       critic=lambda x: torch.zeros(x.shape[0], 1), actor_optimizer=None, critic_optimizer=None,
+                                       critic=lambda x: torch.ones(*x.shape[:-1], 1), actor_optimizer=None, critic_optimizer=None,
                                        obs_space=obs_space, action_space=act_space)
             except _Stop:
                 pass
@@ -139,13 +140,20 @@ def ippo_align(payload):
         if not all(x.reshape(n, -1).shape[0] == n for x in (st, ac, lp, adv, ret, val)):
             return {"status": "fail", "cases": cases, "detail": f"T={T} A={A} E={E}: tensors of different length reach the update"}
         for k in range(n):
-            c = round(float(st[k].reshape(-1)[0]), 6)
-            row = dict(action=float(ac[k].reshape(-1)[0]), old_logp=float(lp.reshape(-1)[k]), old_value=float(val.reshape(-1)[k]),
-                       advantage=-float(adv.reshape(-1)[k]))
-            for key, v in row.items():
-                if abs(v - c) > 1e-6:
-                    return {"status": "fail", "cases": cases, "witness_key": "ippo-row-order",
-                            "detail": f"T={T} agents={A} envs={E}: row {k} pairs the observation of (agent,t,env) code {c} with the {key} of code {round(v, 6)} "
-                                      f"(states/actions are ordered agent-major, log-probs/values/advantages time-major)",
-                            "input": dict(T=T, A=A, E=E, row=k)}
+            c = round(float(st.reshape(n, -1)[k][0]), 6)
+            a_, t_, e_ = int(round(c * 1000 - 1)) // 100, (int(round(c * 1000 - 1)) // 10) % 10, int(round(c * 1000 - 1)) % 10
+            boot = 0.9 * (1.0 - nd(a_, e_)) if t_ == T - 1 else 0.0                   # every earlier step is followed by done = 1
+            row = dict(action=float(ac.reshape(n, -1)[k][0]), old_logp=float(lp.reshape(-1)[k]), old_value=float(val.reshape(-1)[k]),
+                       advantage=boot - float(adv.reshape(-1)[k]), ret=boot - float(ret.reshape(-1)[k]) + float(val.reshape(-1)[k]))
+            bad = [key for key, v in row.items() if abs(v - c) > 1e-5]
+            if bad and set(bad) <= {"advantage", "ret"}:
+                return {"status": "fail", "cases": cases, "witness_key": "ippo-bootstrap-column",
+                        "detail": f"T={T} agents={A} envs={E}: row {k} (agent {a_}, step {t_}, env {e_}) has the right log-prob and value but its advantage/return "
+                                  f"was not computed from that agent's and env's own next_done / rollout column ({bad}: {[round(row[b], 6) for b in bad]} instead of {c})",
+                        "input": dict(T=T, A=A, E=E, row=k)}
+            if bad:
+                return {"status": "fail", "cases": cases, "witness_key": "ippo-row-order",
+                        "detail": f"T={T} agents={A} envs={E}: row {k} pairs the observation of (agent,t,env) code {c} with the {bad[0]} of code {round(row[bad[0]], 6)} "
+                                  f"(states/actions are ordered agent-major, log-probs/values/advantages time-major)",
+                        "input": dict(T=T, A=A, E=E, row=k)}
     return {"status": "pass", "cases": cases}
